@@ -53,6 +53,19 @@ def find_span_binsearch(degree, knot_vector, num_ctrlpts, knot, **kwargs):
         if knot >= knot_vector[nend]:
             return nend
 
+    # The parameters before the start of the domain are assigned to the first non-empty knot span of the domain, like the
+    # linear search does (a parameter can be outside of the domain by a round-off error; the search below would not end)
+    if knot <= knot_vector[degree]:
+        nstart = degree
+        while nstart < n and knot_vector[nstart] == knot_vector[nstart + 1]:
+            nstart += 1
+        return nstart
+    if knot >= knot_vector[n + 1]:
+        nend = n
+        while nend > degree and knot_vector[nend] == knot_vector[nend + 1]:
+            nend -= 1
+        return nend
+
     # Set max and min positions of the array to be searched
     low = degree
     high = num_ctrlpts
@@ -99,6 +112,11 @@ def find_span_linear(degree, knot_vector, num_ctrlpts, knot, **kwargs):
     # Skip zero-length spans at the end of the domain (unclamped knot vectors)
     while span - 1 > degree and knot_vector[span - 1] == knot_vector[span]:
         span -= 1
+
+    # Skip zero-length spans at the start of the domain (unclamped knot vectors; parameters before the start of the domain)
+    if knot < knot_vector[degree]:
+        while span < num_ctrlpts and knot_vector[span - 1] == knot_vector[span]:
+            span += 1
 
     return span - 1
 
